@@ -8,6 +8,7 @@ delimited by < and > and carry their name, and the match / outward / inward cons
 from emmet import html_matcher as H
 from emmet import css_matcher as CM
 from emmet.html_matcher import scan as hscan, attributes as hattrs
+from emmet.html_matcher.utils import ScannerOptions
 from emmet.css_matcher import scan as cscan, split_value
 from mc import explore
 from mc.alphabets import SIGMA_C, SIGMA_H, UNITS_H
@@ -17,8 +18,8 @@ from mc.props.c07 import sig
 ID = 'C16'
 
 BOUNDS = {
-    'quick': dict(chars=4, scan_chars=5, units=3, nbh_nodes=1, radius=1, nbh2_nodes=0),
-    'thorough': dict(chars=5, scan_chars=6, units=4, nbh_nodes=2, radius=1, nbh2_nodes=1),
+    'quick': dict(chars=4, scan_chars=5, units=3, nbh_nodes=1, radius=1, nbh2=[]),
+    'thorough': dict(chars=5, scan_chars=6, units=4, nbh_nodes=2, radius=1, nbh2=True),
 }
 
 
@@ -27,10 +28,10 @@ def describe(tier):
     return dict(
         rule='E1: all strings over the CSS source alphabet %s and the HTML source alphabet %s with <= %d characters (<= %d for the '
              'scan-only functions and attributes/split_value), all sequences of <= %d HTML token-level units %s; E3: every string at '
-             'edit distance <= %d from the well-formed C09/C10 documents with <= %d nodes (distance 2 for <= %d nodes); x every position '
+             'edit distance <= %d from the well-formed C09/C10 documents with <= %d nodes (distance 2 around the short seeds %s); x every position '
              '-1..len+1; HTML in both modes. Functions: html_matcher.scan/match/balanced_outward/balanced_inward/attributes, '
              'css_matcher.scan/match/balanced_outward/balanced_inward/split_value. Transition = one appended symbol / edit / caret move.' % (
-                 SIGMA_C, SIGMA_H, b['chars'], b['scan_chars'], b['units'], UNITS_H, b['radius'], b['nbh_nodes'], b['nbh2_nodes']),
+                 SIGMA_C, SIGMA_H, b['chars'], b['scan_chars'], b['units'], UNITS_H, b['radius'], b['nbh_nodes'], NBH2_SEEDS if b['nbh2'] else []),
         nontrivial='at least one of the functions reported a tag / token / range for the string.',
         bounds=b,
         assumptions=['alphabets hold one representative per character class the scanners distinguish'],
@@ -59,11 +60,14 @@ def shards(tier):
         seeds = seed_docs(lang, b['nbh_nodes'])
         for i in range(0, len(seeds), 4):
             out.append(dict(lang=lang, kind='nbh', seeds=seeds[i:i + 4], radius=b['radius']))
-        if b['nbh2_nodes']:
-            seeds = seed_docs(lang, b['nbh2_nodes'])
-            for s in seeds:
+        if b['nbh2']:
+            for s in NBH2_SEEDS[lang]:
                 out.append(dict(lang=lang, kind='nbh', seeds=[s], radius=2))
     return out
+
+
+# short well-formed documents whose radius-2 neighbourhood is still small enough to enumerate
+NBH2_SEEDS = {'html': ['<a></a>', '<x/>', '<br>', '<a b="c">', '<!---->'], 'css': ['a{b:c;}', 'b:c;', 'a{}', 'a:b{}', '/**/']}
 
 
 def seed_docs(lang, nodes):
@@ -91,24 +95,29 @@ def okr(a, b, n):
 def check_html_scan(s):
     bad = []
     n = len(s)
-    tags = []
-    try:
-        hscan(s, lambda name, t, st, en: tags.append((name, t, st, en)))
-    except Exception as e:
-        return [('html.scan:' + sig(e), str(e)[:80])], 0
-    last = 0
-    for name, t, st, en in tags:
-        if not okr(st, en, n):
-            bad.append(('html.scan:range-outside-source', dict(tag=(name, t, st, en))))
-            continue
-        if s[st] != '<' or s[en - 1] != '>':
-            bad.append(('html.scan:tag-not-delimited-by-angle-brackets', dict(tag=(name, t, st, en))))
-        pre = '</' if t == 2 else '<'
-        if not s.startswith(pre + name, st):
-            bad.append(('html.scan:name-not-after-angle-bracket', dict(tag=(name, t, st, en))))
-        if st < last:
-            bad.append(('html.scan:tags-overlap-or-out-of-order', dict(tag=(name, t, st, en), previous_end=last)))
-        last = en
+    ntags = 0
+    # the scanner is run as the matchers run it (script/style bodies skipped) and without special elements
+    for label, special in (('special', ScannerOptions().special), ('plain', None)):
+        tags = []
+        try:
+            hscan(s, lambda name, t, st, en: tags.append((name, t, st, en)), special)
+        except Exception as e:
+            return [('html.scan:' + sig(e), str(e)[:80])], 0
+        ntags += len(tags)
+        last = 0
+        for name, t, st, en in tags:
+            if not okr(st, en, n):
+                bad.append(('html.scan:range-outside-source', dict(tag=(name, t, st, en), mode=label)))
+                continue
+            if s[st] != '<' or s[en - 1] != '>':
+                bad.append(('html.scan:tag-not-delimited-by-angle-brackets', dict(tag=(name, t, st, en), mode=label)))
+            pre = '</' if t == 2 else '<'
+            if not s.startswith(pre + name, st):
+                bad.append(('html.scan:name-not-after-angle-bracket', dict(tag=(name, t, st, en), mode=label)))
+            if st < last:
+                bad.append(('html.scan:tags-overlap-or-out-of-order', dict(tag=(name, t, st, en), previous_end=last, mode=label)))
+            last = en
+    tags = [None] * ntags
     try:
         attrs = hattrs(s)
     except Exception as e:
@@ -117,6 +126,15 @@ def check_html_scan(s):
         if not okr(a.name_start, a.name_end, n) or (a.value is not None and not okr(a.value_start, a.value_end, n)):
             bad.append(('html.attributes:range-outside-source', dict(attr=a.to_json())))
     return bad, len(tags) + len(attrs)
+
+
+def tag_shape(s, name, open_r, close_r):
+    "each tag range starts with <, ends with > and carries its name right after < or </"
+    if not (s[open_r[0]:open_r[0] + 1] == '<' and s[open_r[1] - 1:open_r[1]] == '>' and s.startswith('<' + name, open_r[0])):
+        return False
+    if close_r and not (s[close_r[1] - 1:close_r[1]] == '>' and s.startswith('</' + name, close_r[0])):
+        return False
+    return True
 
 
 def span(t):
@@ -136,9 +154,13 @@ def check_html_pos(s, p, xml):
     for t in o + i:
         if not okr(t.open[0], t.open[1], n) or (t.close and not okr(t.close[0], t.close[1], n)):
             bad.append(('html.balanced:range-outside-source', dict(tag=t.to_json())))
+        elif not tag_shape(s, t.name, t.open, t.close):
+            bad.append(('html.balanced:tag-range-not-delimited-or-name-missing', dict(tag=t.to_json())))
     if m:
         if not okr(m.open[0], m.open[1], n) or (m.close and not okr(m.close[0], m.close[1], n)):
             bad.append(('html.match:range-outside-source', dict(open=m.open, close=m.close)))
+        elif not tag_shape(s, m.name, m.open, m.close):
+            bad.append(('html.match:tag-range-not-delimited-or-name-missing', dict(name=m.name, open=m.open, close=m.close)))
         for a in m.attributes:
             if not okr(a.name_start, a.name_end, n) or (a.value is not None and not okr(a.value_start, a.value_end, n)):
                 bad.append(('html.match:attribute-range-outside-source', dict(attr=a.to_json())))
